@@ -65,8 +65,8 @@ run)
     start=$(date +%s)
     "$ROOT/harness/run.sh" "$c" quick >"$out" 2>&1; code=$?
     end=$(date +%s)
-    v=$(grep -m1 "^VIOLATION" "$out")
-    k=$(grep -A1 -m1 "^VIOLATION" "$out" | tail -1 | cut -c1-300)
+    v=$(grep -a -m1 "^VIOLATION" "$out")
+    k=$(grep -a -A1 -m1 "^VIOLATION" "$out" | tail -1 | cut -c1-300)
     echo "$(date -u +%FT%TZ) $NAME $c quick exit=$code $((end-start))s ${v:-no-violation-line} | $k" | tee -a "$ROOT/seeded/$NAME/runs.log"
   done
   git -C /repo checkout -- .
